@@ -356,6 +356,69 @@ def run_inline(ctx, seed, index, k, chain, dflt):
                                   'name': m})
 
 
+class Boom(Exception):
+    pass
+
+
+def run_redefine(ctx, shape, how, first):
+    """rule:NAME follows NAME's *current* definition: the referenced name is
+    undefined (or raises, or has another body) at a first evaluation, is then
+    (re)defined in place without re-parsing the referring rule, and the
+    reference is evaluated again."""
+    from oslo_policy import _checks, _parser, policy
+    common.set_ctx(ctx)
+    common.register_leaves()
+    if 'boom' not in _checks.registered_checks:
+        @policy.register('boom')
+        class BoomCheck(_checks.Check):
+            def __call__(self, target, creds, enforcer, current_rule=None):
+                raise Boom(self.match)
+    texts = {'direct': 'rule:x', 'not': 'not rule:x',
+             'and': 'sym:a and rule:x', 'chain': 'rule:mid',
+             'or': 'rule:x or sym:a'}
+    rules = {'p': _parser.parse_rule(texts[shape]),
+             'mid': _parser.parse_rule('rule:x')}
+    if first == 'defined':
+        rules['x'] = _parser.parse_rule('sym:x1')
+    elif first == 'raises':
+        rules['x'] = _parser.parse_rule('boom:b')
+    enf = common.mk_enforcer(rules=policy.Rules(rules))
+    la, x1, x2 = (ctx.zvar('leaf.a'), ctx.zvar('leaf.x1'),
+                  ctx.zvar('leaf.x2'))
+
+    def want(xv):
+        return {'direct': xv, 'not': z3.Not(xv), 'and': z3.And(la, xv),
+                'chain': xv, 'or': z3.Or(xv, la)}[shape]
+    one = common.decision(ctx, enf, 'p', {})
+    if first == 'undefined':
+        common.require_decision(ctx, one, want(z3.BoolVal(False)),
+                                'redefine:first', detail={'shape': shape})
+    elif first == 'defined':
+        common.require_decision(ctx, one, want(x1), 'redefine:first',
+                                detail={'shape': shape})
+    new = _parser.parse_rule('sym:x2')
+    if how == 'item-assignment':
+        enf.rules['x'] = new
+    elif how == 'set_rules-update':
+        enf.set_rules({'x': new}, overwrite=False)
+    else:
+        enf.rules.update({'x': new})
+    two = common.decision(ctx, enf, 'p', {})
+    ctx.cover('redefine:' + first)
+    ctx.observe('second', two)
+    common.require_decision(ctx, two, want(x2), 'redefine:reference-does-'
+                            'not-follow-current-definition',
+                            detail={'shape': shape, 'how': how,
+                                    'first': first})
+
+
+def cubes_redefine(tier, seed):
+    return [{'shape': s, 'how': h, 'first': f}
+            for s in ('direct', 'not', 'and', 'chain', 'or')
+            for h in ('item-assignment', 'set_rules-update', 'dict-update')
+            for f in ('undefined', 'defined', 'raises')]
+
+
 def cubes_inline(tier, seed):
     n = 40 if tier == 'quick' else 300
     out = []
@@ -372,11 +435,15 @@ def cubes_inline(tier, seed):
 HARNESSES = {
     'alias': {'fn': run_alias, 'cubes': cubes_alias},
     'inline': {'fn': run_inline, 'cubes': cubes_inline},
+    'redefine': {'fn': run_redefine, 'cubes': cubes_redefine},
 }
-REQUIRED_COVER = ['alias:evaluated', 'alias:default-name', 'inline:compared']
+REQUIRED_COVER = ['alias:evaluated', 'alias:default-name', 'inline:compared',
+                  'redefine:undefined', 'redefine:raises']
 
 
 def cube_weight(hname, p):
+    if hname == 'redefine':
+        return 1
     if hname == 'alias':
         return 10 ** sum(NSLOTS[t] for t in p['templates'])
     return 5 ** p['k']
